@@ -466,7 +466,7 @@ def work_docs(shard):
     for n in anchored_loops(root):
         if n.id not in ids:
             ids.append(n.id)
-    plans = list(gen.plans_d1(entry)) if thorough else QUICK_PLANS
+    plans = (list(gen.plans_d1(entry)) if thorough else QUICK_PLANS) + list(gen.plans_boundary(entry, thorough))
     for pi, (name, plan) in enumerate(plans):
         if pi % nparts != part:
             continue
@@ -475,7 +475,7 @@ def work_docs(shard):
         if doc is None:
             P.counters['ungeneratable or ambiguous: corpus plan'] += 1
             continue
-        text = doc.text(eol='\n')
+        text = doc.text(eol=jp.get('eol', '\n'))
         present = []
         for lp in doc.lpaths:
             for (pth, k) in lp:
@@ -506,7 +506,7 @@ def run_case(entry, plan, L, doc=None):
         doc = build(entry, plan)
     if doc is None:
         return None
-    text = doc.text(eol='\n')
+    text = doc.text(eol=(plan or {}).get('eol', '\n'))
     items, exc = observe(text, L)
     return judge(doc, text, L, items, exc)
 
@@ -517,7 +517,7 @@ def evaluate(case):
     doc = build(case['entry'], case['plan'])
     if doc is None:
         return []
-    if case.get('text') is not None and doc.text(eol='\n') != case['text']:
+    if case.get('text') is not None and doc.text(eol=case['plan'].get('eol', '\n')) != case['text']:
         raise RuntimeError('the generator no longer rebuilds the recorded document')
     return run_case(case['entry'], case['plan'], case['loop'], doc)[0]
 
@@ -619,7 +619,7 @@ def run(R):
                 'envelopes': 'each placement alone, with 2 sets, with 2 groups',
                 'loop ids per document': 'the id of the placed loop, of %s, and None' % ('every enclosing loop' if R.thorough else 'its nearest enclosing loop'),
                 'corpus family': ('every single deviation from the minimal document (gen.plans_d1) of every map' if R.thorough else
-                                  '10 shapes per map (min, all, all-filled, last codes, 2 sets / groups / interchanges, all x 2 sets x 2 groups, all swapped, TA1 + 2 interchanges x 2 groups)')
+                                  '10 shapes per map (min, all, all-filled, last codes, 2 sets / groups / interchanges, all x 2 sets x 2 groups, all swapped, TA1 + 2 interchanges x 2 groups; for the 834: a 160-set document, LF / CRLF, one value lengthened by 0..29 characters so that terminators and line breaks meet the 8 KiB read boundaries)')
                                  + ', each read with every loop id occurring in it, one anchored loop id that does not occur, and None'}
     R.assumptions = ['structural validity is decided by the independent grammar: only documents whose reference parse (gen.selfcheck) reproduces the generating nodes are used; others are counted',
                      'layout is one segment per line with ~ * : delimiters (delimiter and layout independence is C12)',
